@@ -44,7 +44,8 @@ def _walk_own(stmts):
 
 
 class _Helper(object):
-    def __init__(self, node, kind, qual, owner):
+    def __init__(self, node, kind, qual, owner, is_gen=False):
+        self.is_gen = is_gen
         self.node = node
         self.kind = kind          # 'method' | 'classmethod' | 'staticmethod' | 'nested' | 'module'
         self.qual = qual
@@ -215,6 +216,15 @@ class Inliner(object):
 
     # ------------------------------------------------------------ candidates
     def _ok_def(self, fn):
+        """'plain' | 'gen' | None"""
+        r = self._ok_def0(fn, False)
+        if r:
+            return 'plain'
+        if self._ok_def0(fn, True):
+            return 'gen'
+        return None
+
+    def _ok_def0(self, fn, gen):
         decos = [ast.unparse(d) for d in fn.decorator_list]
         if any(d not in ('classmethod', 'staticmethod') for d in decos):
             return False
@@ -224,14 +234,32 @@ class Inliner(object):
         body = _body_wo_doc(fn)
         if not body:
             return False
+        nyield = 0
+        par = {}
         for n in _walk_own(body):
-            if isinstance(n, (ast.Yield, ast.YieldFrom, ast.Await, ast.Global, ast.Nonlocal) + _DEF):
+            for c in ast.iter_child_nodes(n):
+                par[id(c)] = n
+        for n in _walk_own(body):
+            if isinstance(n, ast.Yield):
+                if not gen:
+                    return False
+                # only statement-level `yield e`
+                if not isinstance(par.get(id(n)), ast.Expr):
+                    return False
+                nyield += 1
+                continue
+            if gen and isinstance(n, ast.Return) and n.value is not None and not (
+                    isinstance(n.value, ast.Constant) and n.value.value is None):
+                return False
+            if isinstance(n, (ast.YieldFrom, ast.Await, ast.Global, ast.Nonlocal) + _DEF):
                 return False
             if isinstance(n, ast.Call):
                 f = n.func
                 if (isinstance(f, ast.Name) and f.id == fn.name) or (isinstance(f, ast.Attribute) and f.attr == fn.name):
                     return False
         if a.kwarg is not None and not self._all_starstar(body, a.kwarg.arg):
+            return False
+        if gen and not nyield:
             return False
         return True
 
@@ -266,23 +294,24 @@ class Inliner(object):
         modhelpers = {}
         for s in m.tree.body:
             if isinstance(s, ast.FunctionDef) and (m.name + '.' + s.name) not in KNOWN and self._ok_def(s):
-                modhelpers[s.name] = _Helper(s, 'module', m.name + '.' + s.name, m.tree)
+                modhelpers[s.name] = _Helper(s, 'module', m.name + '.' + s.name, m.tree, self._ok_def(s) == 'gen')
 
-        def do_func(fn, qual, clsnode, clshelpers, recv, enclosing_nested):
+        def do_func(fn, qual, clsnode, clshelpers, recv, enclosing_nested, recv_kind='method'):
             nonlocal changed
             # nested helpers defined directly in this function
             nested = dict(enclosing_nested)
             for n in _walk_own(fn.body):
                 if isinstance(n, ast.FunctionDef) and (qual + '.' + n.name) not in KNOWN and self._ok_def(n):
-                    nested[n.name] = _Helper(n, 'nested', qual + '.' + n.name, fn)
-            ctx = dict(fn=fn, qual=qual, recv=recv, clshelpers=clshelpers, nested=nested, modhelpers=modhelpers, module=m)
+                    nested[n.name] = _Helper(n, 'nested', qual + '.' + n.name, fn, self._ok_def(n) == 'gen')
+            ctx = dict(fn=fn, qual=qual, recv=recv, clshelpers=clshelpers, nested=nested, modhelpers=modhelpers, module=m,
+                       clsname=(clsnode.name if clsnode is not None else None), recv_kind=recv_kind)
             nb = self._stmts(fn.body, ctx)
             if nb is not None:
                 fn.body = nb
                 changed = True
             for n in _walk_own(fn.body):
                 if isinstance(n, ast.FunctionDef):
-                    do_func(n, qual + '.' + n.name, clsnode, clshelpers, recv, nested)
+                    do_func(n, qual + '.' + n.name, clsnode, clshelpers, recv, nested, recv_kind)
 
         def do_class(cn, prefix):
             qual = prefix + '.' + cn.name
@@ -293,14 +322,16 @@ class Inliner(object):
                         and self._ok_def(s):
                     decos = [ast.unparse(d) for d in s.decorator_list]
                     kind = 'classmethod' if 'classmethod' in decos else 'staticmethod' if 'staticmethod' in decos else 'method'
-                    helpers[s.name] = _Helper(s, kind, qual + '.' + s.name, cn)
+                    helpers[s.name] = _Helper(s, kind, qual + '.' + s.name, cn, self._ok_def(s) == 'gen')
             for s in cn.body:
                 if isinstance(s, ast.FunctionDef):
                     decos = [ast.unparse(d) for d in s.decorator_list]
                     recv = None
-                    if 'staticmethod' not in decos and 'classmethod' not in decos and s.args.args:
+                    rk = 'method'
+                    if 'staticmethod' not in decos and s.args.args:
                         recv = s.args.args[0].arg
-                    do_func(s, qual + '.' + s.name, cn, helpers, recv, {})
+                        rk = 'classmethod' if 'classmethod' in decos else 'method'
+                    do_func(s, qual + '.' + s.name, cn, helpers, recv, {}, rk)
                 elif isinstance(s, ast.ClassDef):
                     do_class(s, qual)
 
@@ -347,11 +378,15 @@ class Inliner(object):
 
     def _match(self, call, ctx):
         f = call.func
-        if isinstance(f, ast.Attribute) and isinstance(f.value, ast.Name) and ctx['recv'] is not None \
-                and f.value.id == ctx['recv']:
+        if isinstance(f, ast.Attribute) and isinstance(f.value, ast.Name):
             h = ctx['clshelpers'].get(f.attr)
             if h is not None and h.node is not ctx['fn']:
-                return h
+                if ctx['recv'] is not None and f.value.id == ctx['recv']:
+                    # an instance method needs an instance receiver; class/static methods work on both
+                    if h.kind != 'method' or ctx.get('recv_kind') == 'method':
+                        return h
+                elif ctx.get('clsname') and f.value.id == ctx['clsname'] and h.kind in ('classmethod', 'staticmethod'):
+                    return h
         if isinstance(f, ast.Name):
             h = ctx['nested'].get(f.id)
             if h is not None and h.node is not ctx['fn']:
@@ -405,6 +440,10 @@ class Inliner(object):
     def _stmt(self, s, ctx):
         """Try to inline one helper call of statement s: the replacement statement list (ending in s itself when s
         was kept with the call hoisted), or None."""
+        if isinstance(s, ast.For) and isinstance(s.iter, ast.Call):
+            h = self._match(s.iter, ctx)
+            if h is not None and h.is_gen:
+                return self._expand(h, s.iter, 'gen', s, ctx, s)
         if isinstance(s, ast.Expr) and isinstance(s.value, ast.Call):
             h = self._match(s.value, ctx)
             if h is not None:
@@ -413,8 +452,9 @@ class Inliner(object):
             h = self._match(s.value, ctx)
             if h is not None:
                 return self._expand(h, s.value, 'ret', None, ctx, s)
-        if isinstance(s, ast.Assign) and len(s.targets) == 1 and isinstance(s.targets[0], ast.Name) \
-                and isinstance(s.value, ast.Call):
+        if isinstance(s, ast.Assign) and len(s.targets) == 1 and isinstance(s.value, ast.Call) and (
+                isinstance(s.targets[0], ast.Name) or (isinstance(s.targets[0], ast.Tuple) and all(
+                    isinstance(e, ast.Name) for e in s.targets[0].elts))):
             h = self._match(s.value, ctx)
             if h is not None:
                 return self._expand(h, s.value, 'assign', s.targets[0], ctx, s)
@@ -437,6 +477,8 @@ class Inliner(object):
         if c is None:
             return None
         h = self._match(c, ctx)
+        if h.is_gen:
+            return None
         self.counter += 1
         tmp = ast.Name(id='_inl%d_%s' % (self.counter, h.name.strip('_')), ctx=ast.Store())
         ast.copy_location(tmp, c)
@@ -449,8 +491,25 @@ class Inliner(object):
 
     def _expand(self, h, call, mode, target, ctx, at):
         fn = h.node
+        if h.is_gen != (mode == 'gen'):
+            return None
         body = copy.deepcopy(_body_wo_doc(fn))
         allret = [n for n in _walk_own(body) if isinstance(n, ast.Return)]
+        if mode == 'gen':
+            loop = target
+            # the loop body is repeated at every yield of the helper: it must not leave / restart the loop itself
+            for n in _walk_own(loop.body):
+                if isinstance(n, (ast.Break, ast.Continue)):
+                    inner = False
+                    # allowed only inside a loop nested in the body
+                    for outer in _walk_own(loop.body):
+                        if isinstance(outer, (ast.For, ast.While)) and any(x is n for x in _walk_own(outer.body + outer.orelse)):
+                            inner = True
+                    if not inner:
+                        return None
+            if any(isinstance(n, (ast.Try, ast.With)) and any(isinstance(y, ast.Yield) for y in _walk_own([n]))
+                   for n in _walk_own(body)):
+                return None
         if mode != 'ret':
             body = _nest_else(body)
             tails = set()
@@ -477,6 +536,9 @@ class Inliner(object):
             recv = call.func.value
             if h.kind == 'method':
                 subst[first] = recv
+            elif isinstance(recv, ast.Name) and ((recv.id == ctx.get('recv') and ctx.get('recv_kind') == 'classmethod')
+                                                 or recv.id == ctx.get('clsname')):
+                subst[first] = recv          # already a class object
             else:
                 subst[first] = ast.Attribute(value=copy.deepcopy(recv), attr='__class__', ctx=ast.Load())
         if any(isinstance(x, ast.Starred) for x in call.args) or any(k.arg is None for k in call.keywords):
@@ -570,11 +632,53 @@ class Inliner(object):
                     return [ast.copy_location(ast.Expr(value=v), r or at)]
                 return []
             body = _conv_tail(body, mk)
+        elif mode == 'gen':
+            body = _conv_tail(body, lambda v, r=None: [])
+            loop = target
+
+            # `for x in helper(): yield x` with x used nowhere else: the helper's yields are the caller's yields
+            passthrough = False
+            if isinstance(loop.target, ast.Name) and len(loop.body) == 1 and isinstance(loop.body[0], ast.Expr) \
+                    and isinstance(loop.body[0].value, ast.Yield) and isinstance(loop.body[0].value.value, ast.Name) \
+                    and loop.body[0].value.value.id == loop.target.id and not loop.orelse:
+                nloads = sum(1 for x in ast.walk(ctx['fn']) if isinstance(x, ast.Name) and isinstance(x.ctx, ast.Load)
+                             and x.id == loop.target.id)
+                same = sum(1 for x in ast.walk(ctx['fn']) if isinstance(x, ast.For) and isinstance(x.target, ast.Name)
+                           and x.target.id == loop.target.id and len(x.body) == 1 and isinstance(x.body[0], ast.Expr)
+                           and isinstance(x.body[0].value, ast.Yield) and isinstance(x.body[0].value.value, ast.Name)
+                           and x.body[0].value.value.id == loop.target.id)
+                passthrough = nloads == same
+
+            class Y(ast.NodeTransformer):
+                def visit_Expr(self_, e):
+                    if isinstance(e.value, ast.Yield) and passthrough:
+                        return e
+                    if isinstance(e.value, ast.Yield):
+                        val = e.value.value if e.value.value is not None else ast.Constant(value=None)
+                        asg = ast.copy_location(ast.Assign(targets=[copy.deepcopy(loop.target)], value=val), e)
+                        return [asg] + copy.deepcopy(loop.body)
+                    return e
+
+                def visit_FunctionDef(self_, n):
+                    return n
+
+                def visit_Lambda(self_, n):
+                    return n
+            nb = []
+            for st in body:
+                r = Y().visit(st)
+                nb.extend(r if isinstance(r, list) else [r])
+            body = nb + copy.deepcopy(loop.orelse)
         else:
             def mk(v, r=None):
                 val = v if v is not None else ast.Constant(value=None)
-                tgt = ast.Name(id=target.id, ctx=ast.Store())
-                return [ast.copy_location(ast.Assign(targets=[tgt], value=val), r or at)]
+                tgt = copy.deepcopy(target)
+                for x in ast.walk(tgt):
+                    if isinstance(x, (ast.Name, ast.Tuple)):
+                        x.ctx = ast.Store()
+                asg = ast.copy_location(ast.Assign(targets=[tgt], value=val), r or at)
+                asg._norm = True
+                return [asg]
             body = _conv_tail(body, mk)
         out = pre + body
         if not out:
